@@ -1,9 +1,9 @@
-(* LIBBUILD x C08 x C09 -- optional (StimBridgeLayouts.vo takes several minutes): the descriptions of the shipped layouts.
+(* LIBBUILD x C08 x C09 -- the descriptions of the shipped layouts.
    Vocabulary as in Props/LIBBUILD_stim.v; `lay_state D` = data values 1, 0, 1, 0, ... (one per data qubit of D), no ancilla
    values; `all_layout_subchains` = every contiguous data-to-data sub-chain of the three shipped layouts (82). *)
 From Coq Require Import ZArith List Bool.
 Import ListNotations.
-From QCE Require Import Base.Prelude C08.Model C09.Stim C09.Spec C09.Sem C09.Model LibBuild.StimBridge LibBuild.StimBridgeLayouts.
+From QCE Require Import Base.Prelude C08.Model C09.Stim C09.Spec C09.Sem C09.Model LibBuild.StimBridge LibBuild.StimBridgeLayoutsDefs LibBuild.StimBridgeLayouts.
 Open Scope Z_scope.
 
 Theorem LibStim_layouts_export_all_cycles : forall L ch rf cycles, In (L, ch) all_layout_subchains -> 0 <= cycles < two64 + 3 ->
